@@ -1,12 +1,23 @@
 #!/usr/bin/python3
-"""tools/mkprompt_benign.py <Cnn>: write /tmp/wt/prompt-<Cnn>n.txt for a sub-agent that writes behaviour-preserving refactorings of the
-code a property is about (false-alarm measurement). The agent sees the property text only."""
-import json, sys
+"""tools/mkprompt_benign.py <Cnn> [suffix]: write /tmp/wt/prompt-<Cnn><suffix>.txt (suffix default 'n') for a sub-agent that writes
+behaviour-preserving refactorings of the code a property is about (false-alarm measurement). The agent sees the property text and,
+for later waves, the one-line titles of the refactorings already taken (so that it tries other kinds and other functions)."""
+import glob, json, os, sys
 pid = sys.argv[1]
+suffix = sys.argv[2] if len(sys.argv) > 2 else 'n'
 d = [json.loads(l) for l in open('/verif/properties.jsonl') if json.loads(l)['id'] == pid][0]
 prop = 'Property %s: %s\n\nStatement: %s\n\nQuantified over: %s\n\nCode areas involved: %s\n' % (
     pid, d['title'], d['statement'], d['quantifier']['text'], ', '.join(d['anchors'].get('files', [])))
-ident = pid + 'n'
+ident = pid + suffix
 txt = open('/verif/tools/PROMPT_BENIGN.tmpl').read().replace('@ID@', ident).replace('@PID@', pid).replace('@PROP@', prop)
+taken = []
+for m in sorted(glob.glob('/verif/benign_wave/%s*_*/meta.json' % pid)):
+    try:
+        taken.append('  - ' + json.load(open(m))['title'][:260])
+    except Exception:
+        pass
+if taken and suffix != 'n':
+    txt = txt.replace('Spread the six patches over different functions/files of the listed code areas.',
+                      'Spread the six patches over different functions/files of the listed code areas.\n\nALREADY TAKEN by an earlier round (do NOT repeat these; choose other functions and other kinds of rewrite, and prefer larger structural rewrites - splitting or merging functions, changing the loop / algorithm form, moving a decision into a table or a helper class, changing data-flow through locals - over cosmetic ones):\n' + '\n'.join(taken))
 open('/tmp/wt/prompt-%s.txt' % ident, 'w').write(txt)
-print('/tmp/wt/prompt-%s.txt' % ident)
+print('/tmp/wt/prompt-%s.txt' % ident, len(taken), 'taken')
